@@ -281,10 +281,16 @@ class Hugr(Mapping[Node, NodeData], Generic[OpVarCov]):
         parent = self[node].parent
         if parent:
             self[parent].children.remove(node)
-        for inp, _ in self.incoming_links(node):
-            self._links.delete_right(_SubPort(inp))
-        for out, _ in self.outgoing_links(node):
-            self._links.delete_left(_SubPort(out))
+        # drop every link attached to the node, including order links (offset -1)
+        # and all the links of multi-linked ports
+        for offset in range(-1, self.num_in_ports(node)):
+            in_sub = _SubPort(node.inp(offset))
+            while in_sub in self._links.bck:
+                self._delete_sub_link(self._links.bck[in_sub])
+        for offset in range(-1, self.num_out_ports(node)):
+            out_sub = _SubPort(node.out(offset))
+            while out_sub in self._links.fwd:
+                self._delete_sub_link(out_sub)
 
         weight, self._nodes[node.idx] = self._nodes[node.idx], None
 
@@ -376,10 +382,30 @@ class Hugr(Mapping[Node, NodeData], Generic[OpVarCov]):
             sub_offset = next(
                 i for i, inp in enumerate(self.linked_ports(src)) if inp == dst
             )
-            self._links.delete_left(_SubPort(src, sub_offset))
+            self._delete_sub_link(_SubPort(src, sub_offset))
         except StopIteration:
             return
-        # TODO make sure sub-offset is handled correctly
+
+    def _delete_sub_link(self, src_sub: _SO) -> None:
+        """Remove a single link and close the gap it leaves in the sub-offsets
+        of both of its ports, so that the remaining links stay reachable.
+        """
+        dst_sub = self._links.fwd[src_sub]
+        self._links.delete_left(src_sub)
+
+        next_src = src_sub.next_sub_offset()
+        while next_src in self._links.fwd:
+            moved_dst = self._links.fwd[next_src]
+            self._links.delete_left(next_src)
+            self._links.insert_left(src_sub, moved_dst)
+            src_sub, next_src = next_src, next_src.next_sub_offset()
+
+        next_dst = dst_sub.next_sub_offset()
+        while next_dst in self._links.bck:
+            moved_src = self._links.bck[next_dst]
+            self._links.delete_right(next_dst)
+            self._links.insert_right(dst_sub, moved_src)
+            dst_sub, next_dst = next_dst, next_dst.next_sub_offset()
 
     def root_op(self) -> OpVarCov:
         """The operation of the root node.
